@@ -55,16 +55,17 @@ def get_level(level):
     return getattr(logging, level.upper())
 
 
+def set_verbosity(handler, level_name):
+    handler.setFormatter(ColorFormatter(fmt=LOGGING_FORMATS[level_name]))
+    logging.getLogger().setLevel(get_level(level_name))
+
+
 def configure_logging(level_name):
-    fmt = LOGGING_FORMATS[level_name]
-
     handler = logging.StreamHandler()
-    handler.setFormatter(ColorFormatter(fmt=fmt))
-
     root = logging.getLogger()
     root.addHandler(handler)
-    root.setLevel(get_level(level_name))
-    return root
+    set_verbosity(handler, level_name)
+    return handler
 
 
 def init(project_dir):
@@ -125,7 +126,7 @@ def init(project_dir):
     "-v",
     "--verbose",
     type=click.Choice(["warning", "debug", "info", "error"]),
-    default="info",
+    default=None,
     help="Verbosity level.",
 )
 @click.option(
@@ -141,7 +142,7 @@ def main(ctx, file, backend, verbose, no_color):
 
     Shows help for the status command.
     """
-    configure_logging(level_name=verbose)
+    log_handler = configure_logging(level_name=verbose or "info")
 
     try:
         path, obj_name = find_workflow(file)
@@ -160,6 +161,10 @@ def main(ctx, file, backend, verbose, no_color):
     working_dir.joinpath(".gwf", "logs").mkdir(exist_ok=True)
 
     config = FileConfig.load(working_dir.joinpath(".gwfconf.json"))
+
+    # The --verbose flag takes precedence over the configured verbosity.
+    if verbose is None and config.get("verbose") in LOGGING_FORMATS:
+        set_verbosity(log_handler, config["verbose"])
 
     # If the --use-color/--no-color argument is not set, get a value from the
     # configuration file. If nothing has been configured, check if the NO_COLOR
